@@ -3,6 +3,7 @@
 package pure
 
 import (
+	"math/rand"
 	"os"
 	"testing"
 
@@ -10,3 +11,5 @@ import (
 )
 
 func TestMain(m *testing.M) { os.Exit(vlib.Main(m)) }
+
+func newRand(seed int64) *rand.Rand { return rand.New(rand.NewSource(seed)) }
